@@ -148,36 +148,40 @@ def unpackMulti : Nat → Bytes → Except Err (List WMsg)
         | .error e => .error e
         | .ok rest => .ok (⟨seq, ty, slice 5 (5 + len) payload⟩ :: rest)
 
-/-- `Packet.from_bytes(hdr, key, datagram)` (repaired: keyed ⇒ AEAD for every type; the datagram
-    must be exactly header + length + tag/crc bytes long) -/
-def fromBytes (C : Crypto) (h : Header) (key : Option Bytes) (d : Bytes) : Except Err Packet :=
-  let length := hdrSize + h.length
-  if length > d.length then .error .packetError
+/-- first half of `Packet.from_bytes`: length checks, then AES-GCM open (keyed) or CRC (unkeyed);
+    returns the plaintext payload.  Repaired code: keyed ⇒ AEAD for every packet type, and the
+    datagram must be exactly header (20) + length + tag (16) / crc (4) bytes long. -/
+def openBody (C : Crypto) (h : Header) (key : Option Bytes) (d : Bytes) : Except Err Bytes :=
+  if 20 + h.length > d.length then .error .packetError
   else
-    let body : Except Err Bytes :=
-      match keyed key with
-      | some k =>
-        if length + tagSize != d.length then .error .packetError
-        else match C.aopen k (take 12 d) (take 20 d) (slice 20 (length + tagSize) d) with
-          | some pt => .ok pt
-          | none => .error .invalidTag
-      | none =>
-        if length + crcSize != d.length then .error .packetError
-        else
-          let data := take length d
-          if crc32 data != beVal (slice length (length + crcSize) d) then .error .packetError
-          else .ok (drop hdrSize data)
-    match body with
+    match keyed key with
+    | some k =>
+      if 20 + h.length + 16 ≠ d.length then .error .packetError
+      else match C.aopen k (take 12 d) (take 20 d) (slice 20 (20 + h.length + 16) d) with
+        | some pt => .ok pt
+        | none => .error .invalidTag
+    | none =>
+      if 20 + h.length + 4 ≠ d.length then .error .packetError
+      else if crc32 (take (20 + h.length) d) ≠
+              beVal (slice (20 + h.length) (20 + h.length + 4) d) then .error .packetError
+      else .ok (drop 20 (take (20 + h.length) d))
+
+/-- second half: unpack the payload into messages according to `hdr.count` -/
+def parseMsgs (h : Header) (msg : Bytes) : Except Err Packet :=
+  if h.count = 1 then
+    if (take 2 msg).length < 2 then .error .structError
+    else .ok { hdr := h, msg := msg, msgs := [⟨beVal (take 2 msg), h.ptype, drop 2 msg⟩] }
+  else if h.count > 1 then
+    match unpackMulti h.count msg with
     | .error e => .error e
-    | .ok msg =>
-      if h.count = 1 then
-        if (take 2 msg).length < 2 then .error .structError
-        else .ok { hdr := h, msg := msg, msgs := [⟨beVal (take 2 msg), h.ptype, drop 2 msg⟩] }
-      else if h.count > 1 then
-        match unpackMulti h.count msg with
-        | .error e => .error e
-        | .ok ms => .ok { hdr := h, msg := msg, msgs := ms }
-      else .ok { hdr := h, msg := msg, msgs := [] }
+    | .ok ms => .ok { hdr := h, msg := msg, msgs := ms }
+  else .ok { hdr := h, msg := msg, msgs := [] }
+
+/-- `Packet.from_bytes(hdr, key, datagram)` -/
+def fromBytes (C : Crypto) (h : Header) (key : Option Bytes) (d : Bytes) : Except Err Packet :=
+  match openBody C h key d with
+  | .error e => .error e
+  | .ok msg => parseMsgs h msg
 
 /-! ### size constants (`Packet.setMTU`) -/
 
